@@ -58,6 +58,17 @@ func (d *decoderSet) readerDerived(v ssa.Value, fn *ssa.Function) bool {
 	if !d.isReaderType(v.Type()) && !d.isReaderType(core.Strip(v).Type()) {
 		return false
 	}
+	// a wrapper built around a reader that was handed in (bufio.NewReader(r),
+	// io.LimitReader(r, n), io.TeeReader(r, w) …) still consumes that reader
+	if call, ok := core.Canon(v).(*ssa.Call); ok && !call.Call.IsInvoke() {
+		if f := call.Call.StaticCallee(); f != nil && !inRepo(f) {
+			for _, a := range call.Call.Args {
+				if a != v && d.readerDerived(a, fn) {
+					return true
+				}
+			}
+		}
+	}
 	r := core.RootOf(v)
 	switch x := r.(type) {
 	case *ssa.Parameter:
